@@ -47,7 +47,7 @@ func genC09(t *rapid.T) C09Case {
 	for i := 0; i < c.Writers; i++ {
 		c.Sizes = append(c.Sizes, rapid.SampledFrom(c09Sizes).Draw(t, "size"))
 	}
-	c.Class = rapid.SampledFrom([]string{"ascii", "lines", "seps", "sse", "bmp"}).Draw(t, "class")
+	c.Class = rapid.SampledFrom([]string{"ascii", "lines", "seps", "sse", "bmp", "quotes"}).Draw(t, "class")
 	nj := rapid.IntRange(0, 8).Draw(t, "njitter")
 	for i := 0; i < nj; i++ {
 		c.Jitter = append(c.Jitter, rapid.IntRange(0, 10).Draw(t, "jit"))
